@@ -102,6 +102,37 @@ class CtxPaths:
             for c, v in self.ctx_eval(call_args(e)[0], env):
                 res.append((c, self.unary(e["op"], v)))
             return res
+        if k in ("CXXMemberCallExpr", "CallExpr") and "mp::Context" in (e.get("ct") or "") and getattr(self.f, "_owner", None) is not None \
+                and getattr(self, "depth", 0) < 2:
+            # a helper that computes a context: its paths are enumerated and spliced in (parameters -> arguments)
+            g = self.f._owner._by_id.get(e.get("calleeId"))
+            cps = [p for p in (g.params if g is not None else []) if "mp::Context" in (p.get("ct") or p.get("t") or "")]
+            if g is not None and g.body is not None and g is not self.f and len(cps) == 1:
+                args = call_args(e)
+                sub = CtxPaths(g, cps[0]["declId"])
+                sub.depth = getattr(self, "depth", 0) + 1
+                sub.returns = []
+                sub.run()
+                ctx_arg = next((a for p, a in zip(g.params, args) if p["declId"] == cps[0]["declId"]), None)
+                arg_vals = self.ctx_eval(ctx_arg, env) if ctx_arg is not None else [([], ("?", "missing context argument"))]
+                ren = [(p["name"], nt(render(a))) for p, a in zip(g.params, args) if p["declId"] != cps[0]["declId"] and p.get("name")]
+
+                def back(t):
+                    for pn, at in ren:
+                        t = re.sub(r"(?<![A-Za-z0-9_.>])%s(?![A-Za-z0-9_])" % re.escape(pn), at, t)
+                    return t
+                res = []
+                for ac, av in arg_vals:
+                    for rc, rv in sub.returns:
+                        if rv == "C":
+                            v = av
+                        elif rv == "-C":
+                            v = self.unary("-", av)
+                        else:
+                            v = rv
+                        res.append((ac + [(back(t), pol) for t, pol in rc], v))
+                if res:
+                    return res
         if k == "ConditionalOperator":
             c, a, b = kids(e)
             res = []
@@ -199,6 +230,10 @@ class CtxPaths:
                 k(e1, c1, list(sinks))
             return
         if kind == "ReturnStmt":
+            if getattr(self, "returns", None) is not None and kids(s):
+                for cc, v in self.ctx_eval(kids(s)[0], env):
+                    self.returns.append((conds + cc, v))
+                return
             return self.expr(kids(s)[0] if kids(s) else None, env, conds, sinks, lambda e2, c2, s2: self.out.append((c2, s2)))
         return self.expr(s, env, conds, sinks, k)
 
@@ -1035,7 +1070,9 @@ def rule_M1(rep, funcs):
         if oki:
             fa = dict(nfacts(h, thr[0]))
             cmpop = "<=0" if side == "LE" else ">=0"
-            oki = fa.get(inf_atom) is True and any(bname in t and "bigMDefault()" in t and t.endswith(cmpop) and p for t, p in fa.items()) and "ConstraintConversionFailure" in render(thr[0])
+            embedded = any(bname in t and "bigMDefault()" in t and t.endswith(cmpop) and p for t, p in fa.items())
+            separate = any(t.replace("0.0", "0") in (bname + cmpop,) and p for t, p in fa.items()) and h.cfg.dominates(asg[0], thr[0])
+            oki = fa.get(inf_atom) is True and (embedded or separate) and "ConstraintConversionFailure" in render(thr[0])
             oki = oki and dict(nfacts(h, asg[0])).get(inf_atom) is True
         m1.check(oki, "%s|infinite-bound" % side, short_loc(h.loc), "%s: an infinite bound is replaced by %scvt:bigM, and the conversion is refused (ConstraintConversionFailure) when that is not positive" %
                  (side, "" if side == "LE" else "-"), "throws %d, assignments %s" % (len(thr), [nt(render(a)) for a in asg]))
@@ -1564,11 +1601,21 @@ def rule_K2(rep, repo):
                 for cid, pol in f.cfg.facts_at(c):
                     cn = f.nodes[cid]
                     v = cv(cn)
+                    if isinstance(pol, tuple):
+                        continue                     # membership in a switch section: decided below
                     if v is not None:
                         if bool(v) != pol:
                             ok = False
                     else:
                         guards.append((nt(render(cn)), pol))
+                # a switch over the (constant) kind: only the selected section is live
+                sw_ = next((a_ for a_ in f.ancestors(c) if a_["k"] == "SwitchStmt"), None)
+                if ok and sw_ is not None:
+                    sv_ = cv([x for x in sw_["c"] if x is not None][0])
+                    if sv_ is not None:
+                        secs_ = switch_sections(sw_)
+                        sel_ = secs_.get(sv_, secs_.get("default", []))
+                        ok = any(any(x["i"] == c["i"] for x in walk(st_)) for st_ in sel_)
                 if ok and f.cfg.position(c) is not None:
                     live.append((c, guards))
         key = "round|%s|kind %d" % (body, kind)
